@@ -160,7 +160,7 @@ def job_large_subsets(job, n, nsym):
     view = NfaView(N, names, syms)
     job.inputs['N'] = N
     job.decoders['N'] = view.to_json
-    E.while_bound = 2 ** nsym + 4
+    E.while_bound = n + 2 ** nsym + 6
     Dr = nfa_to_dfa(N)
     job.lifted()
     rp = ('subset', {'N': view.to_json})
